@@ -26,21 +26,35 @@ theorem releaseActionMappings_clean {s : State} (h : Clean s) : Clean (releaseAc
   have f := releaseActionMappings_frame s
   exact ⟨by rw [f.2.2.1]; exact h.abs, by rw [f.2.2.2.1]; exact h.trig⟩
 
-theorem addPhase2_clean {s : State} (k : Key) (m : Mapping) (h : Clean s) :
+/-- no pass-through key of the state after a consumption is mentioned by `m` -/
+theorem afterConsume_clear (s : State) (m : Mapping) :
+    ∀ x, x ∈ (afterConsume s m).pass → x ∉ m.frm ∧ x ∉ m.to :=
+  fun x hx => (afterConsume_pass_clear s m x hx).2
+
+/-- (D5 fix) in a clean state whose pass-through keys `m` does not mention — the state right after the
+first consumption — `release_absorbed_keys` and the second consumption are no-ops -/
+theorem addPhase2_clean {s : State} (k : Key) (m : Mapping) (h : Clean s)
+    (hp : ∀ x, x ∈ s.pass → x ∉ m.frm ∧ x ∉ m.to) :
     addPhase2 s k m = if isActionMapping m then releaseActionMappings s else (s, []) := by
   cases ha : isActionMapping m
   · simp [addPhase2_nonaction s k m ha]
   · have hsa : shouldAbsorb s k = true := by simp [shouldAbsorb, h.trig]
     rw [addPhase2_absorb s k m ha hsa, releaseAbsorbedKeys_clean (releaseActionMappings_clean h)]
+    have hp' : ∀ x, x ∈ (releaseActionMappings s).1.pass → x ∉ m.frm ∧ x ∉ m.to := by
+      intro x hx; simp [releaseActionMappings] at hx; exact hp x hx.1
+    have n := afterConsume_noop (releaseActionMappings s).1 m hp'
+    rw [n.1, n.2]
     simp
 
 theorem addPhase2_clean_frame {s : State} (k : Key) (m : Mapping) (h : Clean s) :
     Clean (addPhase2 s k m).1 ∧ (addPhase2 s k m).1.inp = s.inp ∧ (addPhase2 s k m).1.active = s.active := by
-  rw [addPhase2_clean k m h]
-  cases isActionMapping m
-  · exact ⟨h, rfl, rfl⟩
-  · have f := releaseActionMappings_frame s
-    exact ⟨releaseActionMappings_clean h, f.1, f.2.1⟩
+  have f := releaseActionMappings_frame s
+  cases ha : isActionMapping m
+  · rw [addPhase2_nonaction s k m ha]; exact ⟨h, rfl, rfl⟩
+  · have hsa : shouldAbsorb s k = true := by simp [shouldAbsorb, h.trig]
+    rw [addPhase2_absorb s k m ha hsa, releaseAbsorbedKeys_clean (releaseActionMappings_clean h)]
+    have hc := releaseActionMappings_clean h
+    exact ⟨⟨hc.abs, hc.trig⟩, f.1, f.2.1⟩
 
 theorem afterConsume_frame (s : State) (m : Mapping) :
     (afterConsume s m).inp = s.inp ∧ (afterConsume s m).active = s.active ∧
